@@ -27,6 +27,7 @@ namespace
         else if (op[0] == 'B') { for (long k = 4; k <= 9; ++k) out.set(Int{k}, Int{val_a(k)}); }
         else if (op[0] == 'H') { for (long k = 21; k <= 90; ++k) out.set(Int{k}, Int{1L << 21}); }   // 70 equal addends above the zero bit: sum shows the count
         else if (op[0] == 'u') { const long k = std::stol(op.substr(1)); out.set(Int{k}, Int{val_u(k)}); }
+        else if (op[0] == 'n') { (void)out[Int{std::stol(op.substr(1))}]; }   // create the key WITHOUT a value: a live key whose element is not valid yet
         else if (op[0] == 'c') out.clear();
     }
     struct DictWriter
@@ -135,16 +136,18 @@ namespace
             if (c < run.cycles && !script[static_cast<std::size_t>(c)].empty())
             {
                 bool structural = false, update = false;
+                std::map<long, long> graveyard;   // keys erased earlier in THIS cycle: re-creating one resurrects the same element with its contents (see C05)
                 for (auto &op : split(script[static_cast<std::size_t>(c)], ','))
                 {
                     if (dict)
                     {
                         if (op[0] == 's') { const long k = std::stol(op.substr(1, op.size() - 2)); if (live.count(k)) update = true; else structural = true; live[k] = op.back() == 'a' ? val_a(k) : val_b(k); }
-                        else if (op[0] == 'e') { if (live.erase(std::stol(op.substr(1)))) structural = true; }
+                        else if (op[0] == 'e') { const long k = std::stol(op.substr(1)); if (live.count(k)) { graveyard[k] = live[k]; live.erase(k); structural = true; } }
                         else if (op[0] == 'B') { for (long k = 4; k <= 9; ++k) live[k] = val_a(k); structural = true; }
                         else if (op[0] == 'H') { for (long k = 21; k <= 90; ++k) live[k] = 1L << 21; structural = true; }
                         else if (op[0] == 'u') { const long k = std::stol(op.substr(1)); if (live.count(k)) update = true; else structural = true; live[k] = val_u(k); }
-                        else if (op[0] == 'c') { if (!live.empty()) structural = true; live.clear(); }
+                        else if (op[0] == 'n') { const long k = std::stol(op.substr(1)); structural = true; if (!live.count(k) && graveyard.count(k)) live[k] = graveyard[k]; }   // a key without a value is not an element of the fold
+                        else if (op[0] == 'c') { if (!live.empty()) structural = true; for (auto &[k2, v2] : live) graveyard[k2] = v2; live.clear(); }
                     }
                     else { const long i = op[1] - '0'; live[i] = op.back() == 'a' ? val_a(i + 1) : val_b(i + 1); }
                 }
@@ -211,6 +214,8 @@ void verif_enumerate(verif::Ctx &ctx)
         {{"do-", "doz"}, {"s1a", "s2a", "s3a", "e1", "e2", "e3", "s2b", "c"}, 3, 2},   // long lists: cancellations inside one cycle
         {{"lo-", "loz", "ln-", "lgz"}, {"s0a", "s1a", "s2a", "s3a", "s0b", "s2b"}, 2, 3},  // fixed TSL<TS<Int>,4>: unset slots are not live
     };
+    // keys that exist before they hold a value (pending elements are not part of the fold, whenever they appear)
+    spaces.push_back({{"do-", "doz", "dn-"}, {"n1", "n2", "s1a", "s2a", "s3a", "e1", "e2", "s1b"}, 2, 3});
     // a LIVE zero (a time-series that ticks with a new value every cycle): empty and singleton results must follow it, also after the tree shrank
     spaces.push_back({{"doy", "dny"}, th ? std::vector<std::string>{"s1a", "s2a", "s3a", "s4a", "e1", "e2", "e3", "e4", "B", "c"} : std::vector<std::string>{"s1a", "s2a", "s3a", "e1", "e2", "e3", "c"}, 2, 3});
     spaces.push_back({{"doy", "dgy"}, {"s1a", "s2a", "s3a", "e1", "e2", "e3", "s1b", "c"}, 1, 5});
